@@ -117,6 +117,7 @@ Definition normalise (n : vec) (a g : mat) : mat * mat :=
 Definition tol8 : Q := 1 # 100000000.
 Definition tol9 : Q := 1 # 1000000000.
 Definition tol5 : Q := 1 # 100000.
+Definition tol6 : Q := 1 # 1000000.
 
 Definition qle (a b : Q) : bool := Qle_bool a b.
 Fixpoint descending (v : vec) : bool :=
@@ -149,7 +150,14 @@ Definition chi2_clauses (b sq : vec) (A : mat) (ia : vec) (ichi2 : Q) (iyfit : v
   ; Z.eqb idof (cc_dof sq nstar)                                 (* 3 degrees of freedom *)
   ; inverse_ok tol8 icovar (normal_mat nstar D)                  (* 4 covariance = inverse of A^T W A *)
   ; meq_bool icovar (transpose icovar)                           (* 5 symmetric *)
-  ; veq_bool ivar (diag icovar) ].                               (* 6 variances = diagonal *)
+  ; veq_bool ivar (diag icovar)                                  (* 6 variances = diagonal *)
+    (* 7 the chi-square of the returned coefficients is within 1e-6 (relative) of the PROVEN minimum
+         (wls_solve_optimal): decides optimality also for badly scaled systems, where a truncated
+         pseudo-inverse is off by far more than rounding *)
+  ; match wls_solve nstar D with
+    | Some xopt => Qle_bool (chi2 D ia) (chi2 D xopt * (1 + tol6) + tol6 * tol6)
+    | None => false
+    end ].
 Definition chi2_ok (b sq : vec) (A : mat) (ia : vec) (ichi2 : Q) (iyfit : vec) (idof : Z) (icovar : mat) (ivar : vec) : bool :=
   forallb id (chi2_clauses b sq A ia ichi2 iyfit idof icovar ivar).
 
